@@ -68,6 +68,11 @@ func (f faultyReaderAt) ReadAt(p []byte, off int64) (int, error) {
 		if os.Getenv("VERIF_DEBUG") != "" {
 			println("fault ReadAt len", len(p), "off", off)
 		}
+		if f.log.kind == "eof" {
+			// the file became shorter than it was when it was parsed: a short count with io.EOF
+			n, _ := f.inner.ReadAt(p[:len(p)/2], off)
+			return n, io.EOF
+		}
 		return 0, errInjected
 	}
 	return f.inner.ReadAt(p, off)
@@ -265,6 +270,12 @@ func runFaults(sc M) {
 				end["bytes_same"] = b1 == bytes0
 				end["value_returned"] = err != nil && sig != nil
 				end["api"] = "signimage"
+				if err == nil {
+					// a signature was produced: it must commit to the digest of the image as parsed
+					if pb, perr := projectP7(sig); perr != nil || !bytes.Equal(spcDigestOf(pb.ContentValue), digest0) {
+						end["res"] = "wrongvalue"
+					}
+				}
 				return err
 			case "verifyimage":
 				c2 := testCert("k2", "i2", "s2")
